@@ -296,6 +296,37 @@ def Form.xepType (F : Form) : Option Bytes :=
   | _ => none
 
 
+/-! ## Operations on the forms between decoding and hashing (round F)
+
+`Hash` reads the values of a form *as the peer sent them* (`FieldData.Raw`).  The operations
+of `form.Data` an application performs on an extension form of a reply - encoding it, reading
+typed values, `Set`, `Submit` (which returns a NEW form) - must leave those alone.  `writeBack`
+is what an implementation does that stores the typed / normalised values in their place
+(`norm f` = the values the type of `f` makes of its wire values: boolean `1` ↦ `true`, an
+address re-serialised, a single-valued type cut to its first value). -/
+
+def Form.writeBack (norm : Field → List Bytes) (F : Form) : Form :=
+  ⟨F.fields.map fun f => ⟨f.var, norm f⟩⟩
+
+def Info.afterFormOps (writes : Bool) (norm : Field → List Bytes) (i : Info) : Info :=
+  if writes then { i with forms := i.forms.map (Form.writeBack norm) } else i
+
+/-- the code: no operation of `form.Data` writes typed values over the wire values
+(regenerated fact `formOpWrites`, a probe of the real operations) -/
+def implFormOpsWrite : Bool := false
+
+/-- the operations probed by the fact, in its order -/
+def formOpNames : List String :=
+  ["marshal", "token-reader", "read", "submit", "set-submit", "submit-marshal"]
+
+/-- boolean fields: the lexical forms `1` / `0` become `true` / `false` -/
+def normBool (f : Field) : List Bytes :=
+  f.values.map fun v => if v = [0x31] then [0x74, 0x72, 0x75, 0x65] else if v = [0x30] then [0x66, 0x61, 0x6c, 0x73, 0x65] else v
+
+/-- the kinds of hashed position of the octet probe, in the order of the fact -/
+def octetKinds : List String := ["category", "type", "lang", "name", "feature", "form-type", "var", "value"]
+
+
 /-! ## Probe domains (the regenerated facts of `Generated/C20.lean` are tables over them) -/
 
 /-- for every ordered pair of distinct positions `(i, j)` of `u`: does `le u[i] u[j]` hold, i.e.
